@@ -123,6 +123,12 @@ def _e2e_job(job):
         marks_shift = 1
         open(lf, 'w', encoding='latin1').write(text)
     opts = (['-L'] if noline and not noline_opt else []) + rng.choice([[], ['-Cf']])
+    hf = None
+    if rng.random() < 0.4:
+        # a header as well: the %top code is copied into it too
+        hf = os.path.join(work, 'c20_%d.h' % idx)
+        opts = opts + ['--header-file=' + hf]
+        res['feats'] = res['feats'] + ['header']
     res['known'] = []
     rc, so, se = flexrun.run_flex(flex, lf, cf, opts, timeout=10)
     if rc != 0:
@@ -137,6 +143,28 @@ def _e2e_job(job):
             res['problems'].append('user code of region %s (marker %d) is missing from the generated scanner' % (region, k))
         elif m.group(1) != payload:
             res['problems'].append('user code of region %s altered: wrote %r, scanner has %r' % (region, payload, m.group(1)))
+    if hf:
+        try:
+            hout = open(hf, encoding='latin1').read()
+        except OSError:
+            hout = None
+            res['problems'].append('--header-file given, flex exits 0, but no header was written')
+        if hout is not None:
+            for region, k, payload in marks:
+                if region != 'top':
+                    continue
+                m = re.search(r'FVB%d:(.*?):FVE%d' % (k, k), hout, re.S)
+                if not m:
+                    res['problems'].append('%%top code (marker %d) is missing from the generated header' % k)
+                elif m.group(1) != payload:
+                    res['problems'].append('%%top code altered in the generated header: wrote %r, header has %r' % (payload, m.group(1)))
+            p = subprocess.run(['gcc', '-w', '-fsyntax-only', '-x', 'c', hf], stdout=subprocess.PIPE, stderr=subprocess.STDOUT, text=True)
+            if p.returncode != 0:
+                res['problems'].append('generated header does not compile on its own: %s' % p.stdout[-300:])
+            try:
+                os.unlink(hf)
+            except OSError:
+                pass
     # (2) it compiles
     p = subprocess.run(['gcc', '-w', '-fsyntax-only', cf], stdout=subprocess.PIPE, stderr=subprocess.STDOUT, text=True)
     if p.returncode != 0:
